@@ -5,7 +5,7 @@
 use crate::common::*;
 
 #[derive(Clone)]
-enum E { Nil, True, False, Va, Num(String), Str(char, String), Name(String), Field(Box<E>, String), Index(Box<E>, Box<E>), Call(Box<E>, Vec<E>), Method(Box<E>, String, Vec<E>), Sugar(Box<E>),
+enum E { Nil, True, False, Va, Num(String), Str(char, String), Long(usize, String), Name(String), Field(Box<E>, String), Index(Box<E>, Box<E>), Call(Box<E>, Vec<E>), Method(Box<E>, String, Vec<E>), Sugar(Box<E>),
          Un(&'static str, Box<E>), Bin(&'static str, Box<E>, Box<E>), Paren(Box<E>), Table(bool, Vec<F>) }
 #[derive(Clone)]
 enum F { Pos(E), Named(String, E), Key(E, E),
@@ -25,11 +25,15 @@ const STRS0: &[(char, &str)] = &[('"', ""), ('\'', ""), ('"', "abc"), ('\'', "ab
     ('"', r#"both ' and \""#), ('"', r"back\\slash"), ('\'', r#"q\"q"#), ('"', r#"'''\""#), ('\'', r#"""\'"#), ('"', r"\'needless"), ('\'', r"x\-y")];
 const BINS: &[(&str, u32, bool)] = &[("or", 1, false), ("and", 2, false), ("<", 3, false), (">", 3, false), ("<=", 3, false), (">=", 3, false), ("~=", 3, false), ("==", 3, false),
     ("..", 8, true), ("+", 9, false), ("-", 9, false), ("*", 10, false), ("/", 10, false), ("%", 10, false), ("^", 12, true)];
+/// long-bracket strings (level, body), bodies on one line
+const LONGS0: &[(usize, &str)] = &[(0, "long"), (0, "two words"), (0, ""), (1, "a]]b"), (2, "x]=]y"), (1, "it's \"q\""), (0, "-- not a comment")];
 fn binfo(op: &str) -> (u32, bool) { let b = BINS.iter().find(|b| b.0 == op).unwrap(); (b.1, b.2) }
 
 struct G<'a> { rng: &'a mut Rng, loops: usize, noml: usize, comok: bool, argcom: bool }
 impl<'a> G<'a> {
     fn name(&mut self) -> String { self.rng.pick(NAMES).to_string() }
+    /// an index or a table key that begins with a long-bracket string is outside L0 (the formatter keeps it away from the `[` with a blank: expression.rs is_brackets_string)
+    fn no_brk_key(&mut self, k: E) -> E { if starts_brk(&k) { E::Name(self.name()) } else { k } }
     fn atom(&mut self, vararg: bool) -> E {
         match self.rng.below(9) {
             0 => E::Nil, 1 => E::True, 2 => E::False,
@@ -68,7 +72,7 @@ impl<'a> G<'a> {
         for _ in 0..self.rng.below(3) {
             e = match self.rng.below(5) {
                 0 => E::Field(Box::new(e), self.name()),
-                1 if d > 0 => E::Index(Box::new(e), Box::new(self.exp_noml(d - 1, va))),
+                1 if d > 0 => { let k = self.exp_noml(d - 1, va); let k = self.no_brk_key(k); E::Index(Box::new(e), Box::new(k)) }
                 // the arguments of calls inside expressions hold no table written over several lines (chains that hold one are hung)
                 2 if d > 0 => { self.noml += 1; let a = self.args(d - 1, va); self.noml -= 1; E::Call(Box::new(e), a) }
                 3 if d > 0 => { self.noml += 1; let a = self.args(d - 1, va); self.noml -= 1; E::Method(Box::new(e), self.name(), a) }
@@ -111,7 +115,11 @@ impl<'a> G<'a> {
             _ => self.atom(va),
         }
     }
-    fn string(&mut self) -> E { let (q, b) = *self.rng.pick(STRS0); E::Str(q, b.to_string()) }
+    fn string(&mut self) -> E {
+        // one string in five is a long-bracket string
+        if self.rng.chance(1, 5) { let (l, b) = *self.rng.pick(LONGS0); return E::Long(l, b.to_string()); }
+        let (q, b) = *self.rng.pick(STRS0); E::Str(q, b.to_string())
+    }
     fn table(&mut self, d: usize, va: bool) -> E {
         let n = self.rng.below(4);
         // one table in three has a line break right behind its `{` in the source: the formatter then always writes it over several lines
@@ -126,7 +134,7 @@ impl<'a> G<'a> {
             let mut val = |g: &mut Self| -> E { if comok && g.rng.chance(1, 4) { g.comok = true; let t = g.table(d, va); g.comok = false; t } else { g.exp(d, va) } };
             let f = match self.rng.below(3) {
                 0 => { let n = self.name(); F::Named(n, val(self)) }
-                1 => { let k = self.exp(d, va); F::Key(k, val(self)) }
+                1 => { let k = self.exp(d, va); let k = self.no_brk_key(k); F::Key(k, val(self)) }
                 _ => F::Pos(val(self)),
             };
             // (a field that starts with a parenthesis the formatter may remove loses the empty line and the comments in front of it
@@ -151,7 +159,7 @@ impl<'a> G<'a> {
         // one time in six a call in the middle of the chain: `f "s".x = 1`, `f({}):m()[1] = 2`
         let n = if self.rng.chance(1, 6) { self.noml += 1; let a = self.args(1, va); self.noml -= 1; if self.rng.chance(1, 3) { E::Method(Box::new(n), self.name(), a) } else { E::Call(Box::new(n), a) } } else { n };
         let must = !matches!(n, E::Name(_));
-        match self.rng.below(3) { 0 if !must => n, 1 => E::Field(Box::new(n), self.name()), 0 => E::Field(Box::new(n), self.name()), _ => E::Index(Box::new(n), Box::new(self.exp_noml(1, va))) }
+        match self.rng.below(3) { 0 if !must => n, 1 => E::Field(Box::new(n), self.name()), 0 => E::Field(Box::new(n), self.name()), _ => { let k = self.exp_noml(1, va); let k = self.no_brk_key(k); E::Index(Box::new(n), Box::new(k)) } }
     }
     fn call_stmt(&mut self, va: bool) -> E {
         let n = E::Name(self.name());
@@ -224,6 +232,7 @@ impl<'a> G<'a> {
 
 // ---- the tree as an S-expression (blanks written `_`, as ml/sexp.ml expects) ----
 fn hx(s: &str) -> String { let h = hex(s.as_bytes()); if h == "#" || h.is_empty() { "#".to_string() } else { h } }
+fn starts_brk(e: &E) -> bool { match e { E::Long(_, _) => true, E::Paren(x) => starts_brk(x), E::Bin(_, l, _) => starts_brk(l), _ => false } }
 fn starts_paren(e: &E) -> bool {
     match e { E::Paren(_) => true, E::Bin(_, l, _) => starts_paren(l), E::Field(p, _) | E::Index(p, _) | E::Call(p, _) | E::Method(p, _, _) => starts_paren(p), _ => false }
 }
@@ -231,7 +240,7 @@ fn sugar(a: &[E]) -> u8 { matches!(a, [E::Sugar(_)]) as u8 }
 fn sx_e(e: &E) -> String {
     match e {
         E::Nil => "(nil)".into(), E::True => "(true)".into(), E::False => "(false)".into(), E::Va => "(va)".into(),
-        E::Num(s) => format!("(num_{})", hx(s)), E::Str(_, s) => format!("(str_{})", hx(s)), E::Name(s) => format!("(name_{})", hx(s)),
+        E::Num(s) => format!("(num_{})", hx(s)), E::Str(_, s) => format!("(str_{})", hx(s)), E::Long(l, s) => format!("(brk_{}_{})", l, hx(s)), E::Name(s) => format!("(name_{})", hx(s)),
         E::Field(p, n) => format!("(field_{}_{})", sx_e(p), hx(n)), E::Index(p, k) => format!("(index_{}_{})", sx_e(p), sx_e(k)),
         // the flag: the single string / table argument is written without parentheses
         E::Call(f, a) => format!("(call_{}_{}_({}))", sx_e(f), sugar(a), a.iter().map(sx_e).collect::<Vec<_>>().join("_")),
@@ -287,6 +296,7 @@ impl<'a> P<'a> {
             E::Nil => self.t("nil"), E::True => self.t("true"), E::False => self.t("false"), E::Va => self.t("..."),
             E::Num(s) => self.t(s), E::Name(s) => self.t(s),
             E::Str(q, s) => { let q = q.to_string(); self.t(&q); self.t(s); self.t(&q); }
+            E::Long(l, s) => { let eq = "=".repeat(*l); self.t(&format!("[{}[{}]{}]", eq, s, eq)); }
             E::Field(p, n) => { self.e(p); self.bl(); self.t("."); self.bl(); self.t(n); }
             E::Index(p, k) => { self.e(p); self.bl(); self.t("["); self.bl(); self.e(k); self.bl(); self.t("]"); }
             E::Call(f, a) => { self.e(f); self.args(a); }
@@ -433,7 +443,7 @@ pub fn main(args: &[String]) {
         let mut rng = Rng(seed.wrapping_mul(0x9E3779B97F4A7C15) ^ (k as u64).wrapping_mul(0xD1B54A32D192ED03) ^ 0x10);
         let prog = { let mut g = G { rng: &mut rng, loops: 0, noml: 0, comok: false, argcom: false }; let mut b = g.block_t(0, true, 5, true); if b.items.is_empty() { let s = g.stmt(0, true); b.items.push(Item { lead: vec![], blank: false, s, trail: None }); } b };
         let tree = sx_b(&prog);
-        for (key, pat) in [("programs_with_tables_over_several_lines", "(tableml_"), ("programs_with_comment_lines_in_tables", "(fcom_"), ("programs_with_field_lines", "(fline_"), ("programs_with_call_sugar", "_1_("), ("programs_with_if", "(if_"), ("programs_with_function", "function_")] {
+        for (key, pat) in [("programs_with_tables_over_several_lines", "(tableml_"), ("programs_with_comment_lines_in_tables", "(fcom_"), ("programs_with_field_lines", "(fline_"), ("programs_with_call_sugar", "_1_("), ("programs_with_long_bracket_strings", "(brk_"), ("programs_with_if", "(if_"), ("programs_with_function", "function_")] {
             if tree.contains(pat) { *dist.entry(key.to_string()).or_insert(0) += 1; }
         }
         let src = { let mut p = P { rng: &mut rng, out: String::new(), noblank: false }; p.block(&prog, true); if !p.out.ends_with('\n') && p.rng.chance(3, 4) { p.t("\n"); } p.out };
